@@ -2460,5 +2460,35 @@ def generate_rotmkern(fns, gen_dir, write_if_changed):
     out = [FILL_HEADER.format(src="spherical/wigner.py (_rotate)").replace("The kernels that turn the H wedge into results",
            "The matrix route of `Wigner.rotate`: per ℓ the row of weights times the (2ℓ+1)×(2ℓ+1) block of the flat 𝔇 array (`row @ block`: for each column the sum over the row index, accumulated from 0 in index order — BLAS fixes no order, so at `Float` this is one admissible rounding; over exact reals the order is immaterial)"),
            "/-- `_rotate`:\n\n" + "\n".join("      " + l for l in nfkc(ast.unparse(body[0])).splitlines()) + " -/\n" + txt, "end\nend Gen\n"]
+    sig = {k.name: [(p, k.kinds[p]) for p in k.params]}
+    # ---- the matrix branch of Wigner.evaluate: slice bounds + np.matmul(mode_weights[:, i1:i1+n], Y[j1:j1+n], out=function_values[..., i_R]) ----
+    fde = find_function(wtree, "evaluate", "Wigner")
+    ifs = [x for x in fde.body if isinstance(x, ast.If) and nfkc(ast.unparse(x.test)) == "horner"]
+    if len(ifs) != 1:
+        raise TranslationError("Wigner.evaluate: `if horner:` not found")
+    eb = [x for x in ifs[0].orelse if not (isinstance(x, ast.Expr) and isinstance(x.value, ast.Constant))]
+    txts = [nfkc(ast.unparse(x)) for x in eb]
+    want = ["Y = np.zeros(self.Ysize, dtype=complex)", "ell_lo = max(self.ell_min, ell_min)", "i1 = Yindex(ell_lo, -ell_lo, ell_min)",
+            "j1 = Yindex(ell_lo, -ell_lo, self.ell_min)", "n = max(Ysize(ell_lo, ell_max), 0)",
+            "for i_R in range(quaternions.shape[0]):\n    self.sYlm(spin_weight, quaternions[i_R], out=Y, workspace=workspace)\n"
+            "    np.matmul(mode_weights[:, i1:i1 + n], Y[j1:j1 + n], out=function_values[..., i_R])"]
+    if txts != want:
+        raise TranslationError(f"Wigner.evaluate: matrix branch {txts}")
+    src = ("def Wigner_evaluate_matrix_contract(mode_weights, Y, function_values_col, self_ell_min, ell_min, ell_max, mode_weights_shape0):\n"
+           "    ell_lo = max(self_ell_min, ell_min)\n"
+           "    i1 = Yindex(ell_lo, -ell_lo, ell_min)\n"
+           "    j1 = Yindex(ell_lo, -ell_lo, self_ell_min)\n"
+           "    n = max(Ysize(ell_lo, ell_max), 0)\n"
+           "    for i in range(mode_weights_shape0):\n"
+           "        acc_ = 0j\n"
+           "        for k_ in range(n):\n"
+           "            acc_ = acc_ + mode_weights[i, i1 + k_] * Y[j1 + k_]\n"
+           "        function_values_col[i] = acc_\n")
+    fdk = ast.parse(src).body[0]
+    k2, txt2 = KTr(fns, {}, set(), fdk, complex_arrays={"mode_weights", "Y", "function_values_col"}, dims2={"mode_weights"}).translate(lean_name="Wigner_evaluate_matrix_contract")
+    out.insert(-1, "/-- the matrix branch of `Wigner.evaluate` for one rotor, after `self.sYlm(spin_weight, quaternions[i_R], out=Y, …)` has filled `Y`: the slice\n"
+               "    bounds as the text computes them and `np.matmul(mode_weights[:, i1:i1+n], Y[j1:j1+n], out=function_values[..., i_R])` — per row of weights\n"
+               "    the sum over the slice, accumulated from 0 in index order (one admissible order) -/\n" + txt2)
+    sig[k2.name] = [(p, k2.kinds[p]) for p in k2.params]
     write_if_changed(os.path.join(gen_dir, "RotMKern.lean"), "\n".join(out))
-    return {k.name: [(p, k.kinds[p]) for p in k.params]}
+    return sig
